@@ -187,6 +187,9 @@ func (s *Shape) String() string {
 		for i, a := range s.Alts {
 			parts[i] = a.String()
 		}
+		if s.Src != "" {
+			return "(" + strings.Join(parts, " | ") + ":" + s.Src + ")"
+		}
 		return "(" + strings.Join(parts, " | ") + ")"
 	case "star":
 		return "(" + s.A.String() + ")*"
@@ -210,6 +213,9 @@ func (vc *VC) resolved(s *Shape, depth int) *Shape {
 		xs := make([]*Shape, len(s.Alts))
 		for i, a := range s.Alts {
 			xs[i] = vc.resolved(a, depth+1)
+		}
+		if s.Src != "" {
+			return &Shape{K: "alt", Alts: xs, Src: s.Src, Guard: s.Guard}
 		}
 		return shAlt(xs...)
 	case "star":
@@ -285,6 +291,10 @@ func provenance(v ssa.Value, depth int) string {
 		return provenance(x.X, depth+1)
 	case *ssa.ChangeType:
 		return provenance(x.X, depth+1)
+	case *ssa.TypeAssert:
+		return provenance(x.X, depth+1)
+	case *ssa.Slice:
+		return provenance(x.X, depth+1) + "[:]"
 	case *ssa.Call:
 		if f := x.Call.StaticCallee(); f != nil && len(x.Call.Args) >= 1 {
 			return provenance(x.Call.Args[0], depth+1) + "." + f.Name() + "()"
@@ -461,4 +471,173 @@ func canBeEmpty(s *Shape) bool {
 		return s.S == "str" || s.S == "any" || s.S == "hex"
 	}
 	return true
+}
+
+// hasValueAtom: the shape contains something other than literal text.
+func hasValueAtom(s *Shape) bool {
+	switch s.K {
+	case "lit":
+		return false
+	case "cat":
+		return hasValueAtom(s.A) || hasValueAtom(s.B)
+	case "alt":
+		if s.Src != "" {
+			return true
+		}
+		for _, a := range s.Alts {
+			if hasValueAtom(a) {
+				return true
+			}
+		}
+		return false
+	case "star":
+		return hasValueAtom(s.A)
+	}
+	return true
+}
+
+// shapePaths enumerates the alternatives of a shape as sequences of atoms (literals, holes, value-selected
+// literal choices); loops that only repeat literal text are dropped, other loops and unknown parts become
+// an "any" atom. ok is false when there are too many alternatives.
+func shapePaths(s *Shape, limit int) (paths [][]*Shape, ok bool) {
+	switch s.K {
+	case "lit":
+		if s.S == "" {
+			return [][]*Shape{{}}, true
+		}
+		return [][]*Shape{{s}}, true
+	case "hole":
+		return [][]*Shape{{s}}, true
+	case "cat":
+		pa, ok1 := shapePaths(s.A, limit)
+		pb, ok2 := shapePaths(s.B, limit)
+		if !ok1 || !ok2 || len(pa)*len(pb) > limit {
+			return nil, false
+		}
+		for _, a := range pa {
+			for _, b := range pb {
+				paths = append(paths, append(append([]*Shape{}, a...), b...))
+			}
+		}
+		return paths, true
+	case "alt":
+		if s.Src != "" {
+			return [][]*Shape{{s}}, true
+		}
+		for _, a := range s.Alts {
+			pa, ok1 := shapePaths(a, limit)
+			if !ok1 {
+				return nil, false
+			}
+			paths = append(paths, pa...)
+			if len(paths) > limit {
+				return nil, false
+			}
+		}
+		return paths, true
+	case "star":
+		if !hasValueAtom(s.A) {
+			return [][]*Shape{{}}, true
+		}
+	}
+	return [][]*Shape{{shAny()}}, true
+}
+
+// emitsSeqObligation: on every alternative of the output that starts with the literal, the values written
+// after it come, in this order, from the listed fields (a shorter alternative may stop early; at least one
+// alternative writes all of them).
+func (vc *VC) emitsSeqObligation(name, term, lit string, want []string, pos token.Pos) {
+	sh := vc.resolved(vc.shapeOf(term), 0)
+	o := &Obligation{Name: fmt.Sprintf("%s#emits:%s", vc.fc.Key, name), Kind: "emits", Func: vc.fc.Key, Where: vc.posString(pos),
+		Desc: fmt.Sprintf("the values written after %q come, in order, from %s", lit, strings.Join(want, ", ")), Props: vc.props, PC: "true", Goal: "true", Static: true, Solver: "valueflow"}
+	vc.obls = append(vc.obls, o)
+	paths, ok := shapePaths(sh, 4096)
+	if !ok {
+		o.Verdict = "failed"
+		o.Raw = "too many alternatives in the output shape " + truncStr(sh.String(), 1000)
+		return
+	}
+	found, full := false, false
+	for _, p := range paths {
+		text := ""
+		i := 0
+		for i < len(p) && p[i].K == "lit" && len(text) < len(lit) {
+			text += p[i].S
+			i++
+		}
+		if !strings.HasPrefix(text, lit) {
+			continue
+		}
+		found = true
+		k := 0
+		for _, a := range p[i:] {
+			if a.K == "lit" {
+				continue
+			}
+			src := a.Src
+			if a.K != "hole" && !(a.K == "alt" && a.Src != "") {
+				src = "?"
+			}
+			// optional entries ("x.f?") that this alternative does not write are skipped
+			for k < len(want) && strings.HasSuffix(want[k], "?") && !provMatches(src, strings.TrimSuffix(want[k], "?")) {
+				k++
+			}
+			if k >= len(want) {
+				o.Verdict = "failed"
+				o.Raw = fmt.Sprintf("an extra value %s is written after the %d listed ones on the alternative %s", a.String(), len(want), truncStr(mkSeq(p).String(), 600))
+				return
+			}
+			if want[k] != "*" && !provMatches(src, strings.TrimSuffix(want[k], "?")) {
+				o.Verdict = "failed"
+				o.Raw = fmt.Sprintf("value %d after %q is %s (from %q), expected a value of %s; alternative %s", k+1, lit, a.String(), src, want[k], truncStr(mkSeq(p).String(), 600))
+				return
+			}
+			k++
+		}
+		for k < len(want) && strings.HasSuffix(want[k], "?") {
+			k++
+		}
+		if k == len(want) {
+			full = true
+		}
+	}
+	switch {
+	case !found:
+		o.Verdict = "failed"
+		o.Raw = fmt.Sprintf("no alternative of the output starts with %q: %s", lit, truncStr(sh.String(), 1000))
+	case !full:
+		o.Verdict = "failed"
+		o.Raw = fmt.Sprintf("no alternative starting with %q writes all %d listed values", lit, len(want))
+	default:
+		o.Verdict = "discharged"
+	}
+}
+
+// hasProvAtom: some atom of the shape carries a provenance.
+func hasProvAtom(s *Shape) bool {
+	switch s.K {
+	case "hole":
+		return s.Src != ""
+	case "cat":
+		return hasProvAtom(s.A) || hasProvAtom(s.B)
+	case "alt":
+		if s.Src != "" {
+			return true
+		}
+		for _, a := range s.Alts {
+			if hasProvAtom(a) {
+				return true
+			}
+		}
+	case "star":
+		return hasProvAtom(s.A)
+	case "re":
+		return len(s.Emits) > 0
+	}
+	return false
+}
+
+// hasValueOrChoice: the shape is not one fixed literal.
+func hasValueOrChoice(s *Shape) bool {
+	return s.K == "alt" || hasValueAtom(s)
 }
